@@ -69,7 +69,8 @@ UNCHECKED = {
 }
 LITERALS = {
     "hash::inner::FuzzyHash": {"hash::inner::FuzzyHash::try_from", "hash::inner::FuzzyHash::from_str_bytes", "hash::inner::FuzzyHash::from_raw"},
-    "length::FuzzyHashLengthEncoding": {"length::FuzzyHashLengthEncoding::from_raw", "length::FuzzyHashLengthEncoding::new"},
+    "length::FuzzyHashLengthEncoding": {"length::FuzzyHashLengthEncoding::from_raw", "length::FuzzyHashLengthEncoding::new",
+                                        "length::FuzzyHashLengthEncoding::from_str_bytes"},
     "hash::checksum::FuzzyHashChecksumData": {"hash::checksum::FuzzyHashChecksumData::from_raw", "hash::checksum::FuzzyHashChecksumData::from_str_bytes",
                                               "hash::checksum::FuzzyHashChecksumData::new"},
 }
